@@ -124,6 +124,9 @@ func sortSamples(s []nSample) {
 		if a != b {
 			return a < b
 		}
+		if len(s[i].Stack) != len(s[j].Stack) { // [] and [""]
+			return len(s[i].Stack) < len(s[j].Stack)
+		}
 		return !s[i].Unit && s[j].Unit
 	})
 }
@@ -500,7 +503,7 @@ func (x *world) normalise(c *Conc, ep string, respMsg proto.Message, o *outcome)
 					o.Units = "wrong"
 				}
 			}
-			k := strings.Join(ns.Stack, "\x01") + fmt.Sprint("|", ns.Unit)
+			k := fmt.Sprint(len(ns.Stack), "|") + strings.Join(ns.Stack, "\x01") + fmt.Sprint("|", ns.Unit) // a stack of one function named "" is not the empty stack
 			if e, ok := agg[k]; ok {
 				for i := range e.Vals {
 					if i < len(ns.Vals) {
@@ -699,7 +702,18 @@ func (x *world) runCase(rng *rand.Rand, c *Conc, cs *Case) {
 			}
 		}
 	}
-	for _, q := range cs.Fired {
+	// the quirks TLC finds firing in this case: in the mechanism as coded, or in the mechanism with every quirk
+	wouldFire := append([]string{}, cs.Fired...)
+	for _, q := range cs.MutFired {
+		seen := false
+		for _, f := range wouldFire {
+			seen = seen || f == q
+		}
+		if !seen {
+			wouldFire = append(wouldFire, q)
+		}
+	}
+	for _, q := range wouldFire {
 		x.res.FiredCases[q]++
 	}
 	reqView := map[string]interface{}{"endpoint": ep, "route": route, "message": json.RawMessage(mustJSON(reqMsg))}
@@ -745,7 +759,7 @@ func (x *world) runCase(rng *rand.Rand, c *Conc, cs *Case) {
 	}
 	if sameAs(def) {
 		x.res.Agree++
-		for _, q := range cs.Fired {
+		for _, q := range wouldFire {
 			x.res.FiredSilent[q]++
 		}
 		if x.res.Sample == nil && len(cs.DB) > 1 && ep == "SelectSeries" && len(canon(def.Canon)) > 40 {
@@ -753,47 +767,76 @@ func (x *world) runCase(rng *rand.Rand, c *Conc, cs *Case) {
 		}
 		return
 	}
-	if len(cs.Fired) > 0 && sameAs(coded) {
-		var qs []string
+	// explained: the observed answer is the prediction pred, in which the quirks fired fire
+	explained := func(pred *specAnswer, fired []string, kind string) bool {
+		if len(fired) == 0 || !sameAs(pred) {
+			return false
+		}
+		qs := fired
 		if o.Err != "" {
-			if q, ok := quirkOfErr[o.Err]; ok {
-				qs = []string{q}
+			q, ok := quirkOfErr[o.Err]
+			if !ok {
+				return false
 			}
-		} else {
-			qs = cs.Fired
+			qs = []string{q}
 		}
-		fired := map[string]bool{}
-		for _, q := range cs.Fired {
-			fired[q] = true
+		isFired := map[string]bool{}
+		for _, q := range fired {
+			isFired[q] = true
 		}
-		ok := len(qs) > 0
 		for _, q := range qs {
-			ok = ok && fired[q]
-		}
-		if ok {
-			for _, q := range qs {
-				x.res.FiredObserved[q]++
-				x.res.report(mk(ep+"|"+q, "quirk", q, fmt.Sprintf("%s answers what the code as written predicts (quirk %s of ProfSeries.tla), not what the definition demands", ep, q)))
+			if !isFired[q] {
+				return false
 			}
-			return
 		}
+		what := "the code as written"
+		if kind == "repaired_quirk" {
+			what = "the code with a quirk it is believed not to have any more"
+		}
+		for _, q := range qs {
+			x.res.FiredObserved[q]++
+			m := mk(ep+"|"+q, kind, q, fmt.Sprintf("%s answers what %s predicts (quirk %s of ProfSeries.tla), not what the definition demands", ep, what, q))
+			m.Predicted = pred
+			x.res.report(m)
+		}
+		return true
+	}
+	optional := func(raw []json.RawMessage, dflt *specAnswer) (*specAnswer, bool) {
+		if len(raw) == 0 {
+			return dflt, true
+		}
+		a, err := x.specAnswer(c, cs, raw[0])
+		if err != nil {
+			x.res.infra("cannot read an optional answer of the case: %v", err)
+			return nil, false
+		}
+		return a, true
+	}
+	if explained(coded, cs.Fired, "quirk") {
+		return
 	}
 	// an error quirk that the code no longer has: the answer the remaining quirks predict
-	if o.Err == "" && len(coded.Err) > 0 && len(cs.Coded2) > 0 {
-		coded2, err := x.specAnswer(c, cs, cs.Coded2)
-		if err != nil {
-			x.res.infra("cannot read the second as-coded answer: %v", err)
-			return
-		}
-		if len(cs.Fired2) > 0 && sameAs(coded2) {
-			for _, q := range cs.Fired2 {
-				x.res.FiredObserved[q]++
-				m := mk(ep+"|"+q, "quirk", q, fmt.Sprintf("%s answers what the code as written predicts (quirk %s of ProfSeries.tla), not what the definition demands", ep, q))
-				m.Predicted = coded2
-				x.res.report(m)
-			}
-			return
-		}
+	coded2, ok := optional(cs.Coded2, coded)
+	if !ok {
+		return
+	}
+	if o.Err == "" && len(coded.Err) > 0 && explained(coded2, cs.Fired2, "quirk") {
+		return
+	}
+	// a quirk the code is believed not to have any more (MC_ProfSeries!Repaired): the mechanism with every quirk
+	mut, ok := optional(cs.Mut, coded)
+	if !ok {
+		return
+	}
+	if len(cs.Mut) > 0 && explained(mut, cs.MutFired, "repaired_quirk") {
+		return
+	}
+	mut2, ok := optional(cs.Mut2, mut)
+	if !ok {
+		return
+	}
+	if len(cs.Mut2) > 0 && o.Err == "" && explained(mut2, cs.MutFired2, "repaired_quirk") {
+		return
 	}
 	kind := "answer"
 	if o.Err != "" {
@@ -896,7 +939,7 @@ func (x *world) classes(cs *Case, def *specAnswer) {
 	if len(r.Sel) > 0 || len(r.Sels) > 0 {
 		cl["request_with_equality_selector"]++
 	}
-	if len(cs.Fired) > 0 {
+	if len(cs.Fired) > 0 || len(cs.MutFired) > 0 {
 		cl["cases_where_a_quirk_fires"]++
 	}
 }
